@@ -279,6 +279,11 @@ class Interp:
             return b
         if name in _EXC:
             return _EXC[name]
+        import builtins as _bi
+        if hasattr(_bi, name):
+            # a Python builtin the library model does not cover (divmod, map, ...): the function is outside the executable subset here -
+            # undecided, never a NameError of the program
+            raise OutOfReach(f"builtin {name} is not modelled")
         raise Raised("NameError", name)
 
     # ------------------------------------------------------------------------------------------
